@@ -1,6 +1,7 @@
 import Driver.DiffOps
 import Driver.ExecOps
 import Driver.ConfigOps
+import Driver.NamerOps
 /-! Line-protocol driver: one operation per input line, one canonical line out. -/
 namespace Driver
 
@@ -13,6 +14,7 @@ def step (line : String) : String :=
   | "tcwd" :: args => opTcWd args
   | "dcwd" :: args => opDcWd args
   | "effective" :: args => opEffective args
+  | "namer" :: args => opNamer args
   | _ => "bad-op"
 
 partial def loop (h : IO.FS.Stream) (out : IO.FS.Stream) : IO Unit := do
